@@ -625,7 +625,8 @@ class Ev:
 				private = attr.startswith('__') and not attr.endswith('__')
 				if private and self.fn.cname and self.fn.src is not None:
 					f = source.load(self.fn.src.file).funcs.get(f'{self.fn.cname}.{attr}')  # name-mangled: static class only
-				elif self.fn.dyn and self.fn.src is not None and self.fn.src.file == rec.source[0]:
+				elif self.fn.dyn and self.fn.src is not None and self.fn.src.file == rec.source[0] and (rec.source[1] == self.fn.dyn or self.eng_is_ancestor(rec.source[0], rec.source[1], self.fn.dyn)):
+					# virtual dispatch applies to objects of the current class family only
 					f = source.find_method(rec.source[0], self.fn.dyn, attr)
 				if f is None:
 					f = source.find_method(rec.source[0], rec.source[1], attr)
@@ -642,6 +643,19 @@ class Ev:
 				return Val(self.eng.tenv.parse(REG.externals[key].ret), f(base.term))
 			raise EngineError(f'attribute {attr} of opaque {base.ty.rname} (declare external "{key}")')
 		raise EngineError(f'attribute {attr} on {base.ty}')
+
+	def eng_is_ancestor(self, file: str, anc: str, cls: str, depth: int = 0) -> bool:
+		"""Is class `anc` a (transitive) base of class `cls` (both looked up from `file`)?"""
+		if depth > 8:
+			return False
+		try:
+			mod = source.load(file)
+		except Exception:  # noqa: BLE001
+			return False
+		for bf, bc in source.class_bases(mod, cls):
+			if bc == anc or self.eng_is_ancestor(bf, anc, bc, depth + 1):
+				return True
+		return False
 
 	# ---------------------------------------------------------------- operators
 	def e_UnaryOp(self, n: ast.UnaryOp) -> Val:
